@@ -19,7 +19,7 @@ import (
 
 func main() {
 	if len(os.Args) < 2 {
-		fmt.Fprintln(os.Stderr, "usage: gosx check|run ...")
+		fmt.Fprintln(os.Stderr, "usage: gosx check|run|replay ...")
 		os.Exit(2)
 	}
 	switch os.Args[1] {
@@ -27,6 +27,10 @@ func main() {
 		os.Exit(cmdCheck(os.Args[2:]))
 	case "run":
 		os.Exit(cmdRun(os.Args[2:]))
+	case "replay":
+		os.Exit(cmdReplay(os.Args[2:]))
+	case "version":
+		fmt.Println("gosx 1")
 	default:
 		fmt.Fprintln(os.Stderr, "unknown subcommand", os.Args[1])
 		os.Exit(2)
